@@ -31,11 +31,26 @@ class RecTarget:
         self.q = c["tq"]
         self.calls = []
 
+        # "beta": a target with bounded support (0,1)^n - log-density -inf and gradient nan outside, as the library's own Beta
+        self.kind = c.get("tkind", "smooth")
+        self.pa = 1.5 + 2.0 * np.abs(self.a)
+        self.pb = 1.5 + 2.0 * np.abs(np.diag(np.asarray(c["tG"], dtype=float)))
+
     def f(self, z):
+        if self.kind == "beta":
+            z = np.asarray(z, dtype=float).reshape(-1)
+            if not np.all((z > 0) & (z < 1)):
+                return -np.inf
+            return float(np.sum((self.pa - 1) * np.log(z) + (self.pb - 1) * np.log1p(-z)))
         r = np.asarray(z, dtype=float).reshape(-1) - self.a
         return float(-0.5 * r @ self.H @ r - self.q * np.sum(r ** 4))
 
     def g(self, z):
+        if self.kind == "beta":
+            z = np.asarray(z, dtype=float).reshape(-1)
+            if not np.all((z > 0) & (z < 1)):
+                return np.full(len(z), np.nan)
+            return (self.pa - 1) / z - (self.pb - 1) / (1 - z)
         r = np.asarray(z, dtype=float).reshape(-1) - self.a
         return -(self.H @ r) - 4 * self.q * r ** 3
 
@@ -61,7 +76,9 @@ def det_cases(draw, tier="quick"):
             "depth": draw(st.sampled_from([0, 1, 2, 3, 4, 5, 6, 6])),
             "interface": draw(st.sampled_from(["experimental", "legacy"])), "useed": draw(st.integers(0, 10 ** 6)),
             # legacy interface: the sampler object has already produced a chain from another start before it is given x0
-            "reuse": draw(st.booleans())}
+            "reuse": draw(st.booleans()),
+            # the target: smooth on R^n, or with bounded support (leaves outside the support have log-density -inf and no gradient)
+            "tkind": draw(st.sampled_from(["smooth", "smooth", "beta"]))}
 
 
 def orbit(T, x0, r0, eps, K):
@@ -136,6 +153,8 @@ def run_det(c, rec):
     T = RecTarget(c)
     dist = T.build(n)
     x0, r0 = A(c["x0"]), A(c["r0"])
+    if c.get("tkind") == "beta":
+        x0 = 0.5 + 0.2 * x0      # inside the support
     if np.linalg.norm(r0) < 1e-3:
         r0 = r0 + 0.7     # (Hypothesis favours the zero vector; a vanishing momentum only produces ties)
     rng = ScriptedRNG(normal=list(r0), exponential=[c["e"]], fallback_seed=c["useed"])
@@ -237,9 +256,11 @@ def run_det(c, rec):
         rec.inconc(str(e))
         return
     L = len(last_doubling)
+    outside_support = any(not np.isfinite(Hs[i]) for i in last_doubling)
     # a last doubling that was cut short inside its second half (leaf count not a power of two) has sub-trees with halves of unequal size
     tags = {"interface": c["interface"], "doublings": min(ndoubl, 5), "outside_slice": bool(outside),
-            "last_doubling": "complete" if L == 2 ** (j - 1) else "cut_pow2" if L & (L - 1) == 0 else "cut_unequal_halves"}
+            "last_doubling": "complete" if L == 2 ** (j - 1) else "cut_pow2" if L & (L - 1) == 0 else "cut_unequal_halves",
+            "target": c.get("tkind", "smooth"), "nonfinite_leaf": bool(outside_support)}
     if rec.classify(tags, ndoubl >= 2 and outside):
         return
     # the new state
@@ -255,8 +276,8 @@ def run_det(c, rec):
             with np.errstate(all="ignore"):
                 want = float(np.mean([min(1.0, np.exp(Hs[i] - H0)) if np.isfinite(Hs[i]) else 0.0 for i in last_doubling]))
             got = float(np.asarray(ratio).reshape(-1)[0])
-            if np.isfinite(got):
-                require(abs(got - want) <= 1e-8, "the acceptance statistic is not the mean Metropolis probability over the leaves of the last doubling",
+            if True:
+                require(np.isfinite(got) and abs(got - want) <= 1e-8, "the acceptance statistic is not the mean Metropolis probability over the leaves of the last doubling",
                         got=got, want=want, last_doubling=last_doubling)
             # and it is what the step-size adaptation consumed (dual averaging, first update)
             st_ = s.get_state()["state"]
@@ -419,7 +440,7 @@ def run_selection(c, rec):
 
 @st.composite
 def inv_cases(draw, tier="quick"):
-    kind = draw(st.sampled_from(["gauss", "gauss", "banana"]))
+    kind = draw(st.sampled_from(["gauss", "gauss", "banana", "beta"]))
     n = 2 if kind == "banana" else draw(st.integers(1, 3))
     return {"kind": kind, "dim": n, "G": draw(gen.mat(n, n, -0.7, 0.7)), "mu": draw(gen.vec(n, -1, 1)),
             "eps_frac": draw(st.sampled_from([0.05, 0.3, 0.7, 1.1, 1.4])), "depth": draw(st.integers(0, 4)), "k": draw(st.integers(1, 3)),
@@ -448,6 +469,21 @@ def run_inv(c, rec):
         eps = c["eps_frac"] * 2.0 / np.sqrt(lam_max)      # leapfrog stability limit 2/sqrt(lambda_max)
         draw0 = lambda rs: mu + Lc @ rs.standard_normal(n)
         whiten = lambda x: np.linalg.solve(Lc, x - mu)
+    elif c["kind"] == "beta":
+        # bounded support (0,1)^n: log-density -inf and gradient nan outside, as the library's own Beta
+        pa = 1.5 + 2.0 * np.abs(A(c["mu"]))
+        pb = 1.5 + 2.0 * np.abs(np.diag(A(c["G"])))
+
+        def f(x):
+            x = np.asarray(x, dtype=float)
+            return float(np.sum((pa - 1) * np.log(x) + (pb - 1) * np.log1p(-x))) + shift if np.all((x > 0) & (x < 1)) else -np.inf
+
+        def g(x):
+            x = np.asarray(x, dtype=float)
+            return (pa - 1) / x - (pb - 1) / (1 - x) if np.all((x > 0) & (x < 1)) else np.full(n, np.nan)
+        eps = c["eps_frac"] * 0.25
+        draw0 = lambda rs: np.clip(rs.beta(pa, pb), 1e-12, 1 - 1e-12)
+        whiten = lambda x: sps.norm.ppf(np.clip(sps.beta.cdf(x, pa, pb), 1e-300, 1 - 1e-16))
     else:
         a = c["ban_a"]
         f = lambda x: float(-0.5 * x[0] ** 2 - 0.5 * (x[1] - a * x[0] ** 2) ** 2) + shift
